@@ -201,6 +201,23 @@ OnSample(ln) ==
                       tot # 0 /\ <<ln.omega.p[1], ln.omega.p[2]>> = RedRat(GAbs2(a[pos]), tot)>> >>,
      NoState >>
 
+\* region graphs on a tree: counting numbers of gen_region_counts / RegionGraph, cluster expansion value
+FamOf(js) == [k \in DOMAIN js |-> [r |-> SeqToSet(js[k].r), c |-> js[k].c]]
+OnRegions(ln) ==
+  LET N == SeqToSet(ln.graph.nodes)
+      E == {{ln.graph.edges[k][1], ln.graph.edges[k][2]} : k \in DOMAIN ln.graph.edges}
+      dom == IsForest(N, E)
+      f1 == FamOf(ln.counts)
+      f2 == FamOf(ln.rgcounts)
+  IN
+  << << <<"InDomain", dom>>,
+        <<"Returns", ln.exc = "">>,
+        <<"CountsBalanced", dom /\ ln.exc = "" =>
+              /\ RegionsDistinct(f1) /\ CountsRecursive(f1) /\ NodeBalanced(f1) /\ RegionNodes(f1) = N
+              /\ RegionsDistinct(f2) /\ CountsRecursive(f2) /\ NodeBalanced(f2)>>,
+        <<"ValueExact", dom /\ ln.exc = "" => ln.dqvalue = 0>> >>,
+     NoState >>
+
 \* the same network run under different schedules / options gave the same results
 OnGroup(ln) ==
   << << <<"ScheduleIndependent", \A k \in DOMAIN ln.dq : ln.dq[k] = 0>> >>, NoState >>
@@ -218,6 +235,7 @@ Step(ln, s) ==
     [] ln.ev = "gauge"  -> OnGauge(ln)
     [] ln.ev = "sample" -> OnSample(ln)
     [] ln.ev = "group"  -> OnGroup(ln)
+    [] ln.ev = "regions" -> OnRegions(ln)
     [] OTHER            -> << << <<"UnknownEvent", FALSE>> >>, s >>
 
 TInit == l = 1 /\ fails = <<>> /\ st = NoState
